@@ -90,6 +90,59 @@ func vpH_C03_repeated_members() {
 
 func vpH_C03_degenerate() { vpC01Degenerate(1) }
 
+// every type name of the vocabulary (not only the canonical one of each Go type) with one further
+// property, through the package-level codec at top level and nested: the dispatch on names is complete
+func vpH_C03_every_name() {
+	c := vpVocabConsts[vpChoice(len(vpVocabConsts))]
+	spec, ok := vpSpec[c.Value]
+	if !ok {
+		vpReach("end")
+		return
+	}
+	ti := vpTypeIndex(spec.goType)
+	fields := vpFieldsOf(ti)
+	f := 2 + vpChoice(len(fields)-2)
+	if vpShapes(fields[f].Kind) == 0 {
+		vpReach("end")
+		return
+	}
+	x := vpNew(ti)
+	if l, ok := x.(*Link); ok {
+		l.Type = c.Value
+	} else {
+		_ = OnObject(x, func(o *Object) error { o.Type = c.Value; return nil })
+	}
+	vpSetField(x, 0, 0, 'i')
+	vpSetField(x, f, 0, 'a')
+	cell := string(c.Value) + "." + fields[f].Name
+	nested := vpBool()
+	var enc Item = x
+	if nested {
+		enc = &Object{ID: "https://h.ex/outer", Type: NoteType, Icon: x}
+		cell += "/nested"
+	}
+	b, err := GobEncode(enc)
+	vpAssert("every-name/encode/"+cell, err == nil && len(b) > 0)
+	if len(b) == 0 {
+		return
+	}
+	y, err := GobDecode(b)
+	vpAssert("every-name/decode/"+cell, err == nil && y != nil)
+	if y == nil {
+		return
+	}
+	if nested {
+		o, ok := y.(*Object)
+		vpAssert("every-name/outer/"+cell, ok && o != nil && o.Icon != nil)
+		if !ok || o == nil || o.Icon == nil {
+			return
+		}
+		y = o.Icon
+	}
+	vpDiffItems("every-name/roundtrip/"+cell, x, y, nil)
+	vpReach("end")
+}
+
 // every field populated at once
 func vpH_C03_all() {
 	ti := vpChoice(len(vpTypeNames))
